@@ -173,6 +173,38 @@ theorem readMembers_enc (p : Enc) : ∀ (ms : List MemberDecl) (st : St) (r : By
     simp only [encMembers, List.length_cons, readMany, List.append_assoc, readMember_enc p st m _ hm, this,
       List.map_cons]
 
+theorem int_ne_nil (p : Enc) (n : Int) : p.int n ≠ [] := by
+  simp only [Enc.int, encodePackedIntW, packedBytes]
+  split <;> simp
+
+theorem int_length_pos (p : Enc) (n : Int) : 1 ≤ (p.int n).length := by
+  have := int_ne_nil p n
+  cases h : p.int n with
+  | nil => exact absurd h this
+  | cons a t => simp
+
+theorem encMember_length (p : Enc) (tbl : List Bytes) (m : MemberDecl) : 1 ≤ (encMember p tbl m).1.length := by
+  have h := int_length_pos p (m.ty : Int)
+  unfold encMember
+  rcases encString p tbl m.name with ⟨a, tbl1⟩
+  simp only []
+  split
+  · rcases encString p tbl1 m.cls with ⟨c, tbl2⟩
+    simp only [List.length_append, Enc.nat]; omega
+  · simp only [List.length_append, Enc.nat]; omega
+
+theorem encMembers_length (p : Enc) : ∀ (ms : List MemberDecl) (tbl : List Bytes),
+    ms.length ≤ (encMembers p tbl ms).1.length := by
+  intro ms
+  induction ms with
+  | nil => intro _; simp [encMembers]
+  | cons m t ih =>
+    intro tbl
+    have h1 := encMember_length p tbl m
+    have h2 := ih (encMember p tbl m).2
+    simp only [encMembers, List.length_cons, List.length_append]
+    omega
+
 /-- a declared type is well formed on its own (`Spec.HavokTag.itemsOK` without the context part) -/
 def typeOK (t : TypeDecl) : Bool :=
   okString t.name && decide (InRange t.version) && decide (t.parent < 2 ^ 31) &&
@@ -189,14 +221,16 @@ theorem readType_enc (p : Enc) (st : St) (t : TypeDecl) (par : HType) (r : Bytes
   obtain ⟨⟨⟨⟨hn, hv⟩, hpar⟩, hlen⟩, hms⟩ := h
   have hmem := readMembers_enc p t.members { st with strings := (encString p st.strings t.name).2 } r hms
   simp only at hmem
+  have hcount : ¬ ((((encMembers p (encString p st.strings t.name).2 t.members).1 ++ r).length : Int) <
+      (t.members.length : Int)) := by
+    have := encMembers_length p t.members (encString p st.strings t.name).2
+    simp only [List.length_append]
+    omega
   simp only [encType, List.append_assoc, readType, readString_enc p st _ _ hn, readInt p _ _ hv,
-    readNat p _ _ hpar, readNat p _ _ hlen, asIndex_nat, Option.bind_some, hp, Int.toNat_natCast, hmem, toT]
+    readNat p _ _ hpar, readNat p _ _ hlen, hcount, if_false, asIndex_nat, Option.bind_some, hp,
+    Int.toNat_natCast, hmem, toT]
 
 /-! ### the tag loop -/
-
-theorem int_ne_nil (p : Enc) (n : Int) : p.int n ≠ [] := by
-  simp only [Enc.int, encodePackedIntW, packedBytes]
-  split <;> simp
 
 theorem tagLoop_fileInfo (p : Enc) (fuel : Nat) (st : St) (t0 : HType) (ts : List HType) (r : Bytes)
     (ht : st.types = t0 :: ts) :
@@ -222,12 +256,6 @@ theorem tagLoop_end (p : Enc) (fuel : Nat) (st : St) (r : Bytes) :
     tagLoop (fuel + 1) st (p.int 7 ++ r) = some st := by
   simp only [tagLoop, readInt p 7 _ (by decide)]
   rfl
-
-theorem int_length_pos (p : Enc) (n : Int) : 1 ≤ (p.int n).length := by
-  have := int_ne_nil p n
-  cases h : p.int n with
-  | nil => exact absurd h this
-  | cons a t => simp
 
 theorem encItems_length (p : Enc) : ∀ (items : List Item) (tbl : List Bytes) (decls : List TypeDecl),
     items.length ≤ (encItems p tbl decls items).length := by
